@@ -3,6 +3,9 @@
    harness implrun prints the same lines from the real library; the
    check diffs them.  Hand-written glue (trusted): parsing, printing. *)
 open Model
+module String = Stdlib.String
+module List = Stdlib.List
+type string = Stdlib.String.t
 
 (* ---------- numbers ---------- *)
 let rec pos_of_int n =
@@ -205,6 +208,58 @@ let rec parse_call (t : string) : call =
      | _ -> failwith "AddUserProp")
   | _ -> failwith ("call " ^ name)
 
+(* ---------- rendering of tokens (what fmt does with each verb) ---------- *)
+let raw (l : byte list) : string =
+  let b = Buffer.create 64 in
+  List.iter (fun x -> Buffer.add_char b (Char.chr (int_of_byte x))) l; Buffer.contents b
+
+let go_quote (l : byte list) : string =
+  let b = Buffer.create 64 in
+  Buffer.add_char b '"';
+  List.iter (fun x ->
+      let c = int_of_byte x in
+      match c with
+      | 7 -> Buffer.add_string b "\\a" | 8 -> Buffer.add_string b "\\b"
+      | 9 -> Buffer.add_string b "\\t" | 10 -> Buffer.add_string b "\\n"
+      | 11 -> Buffer.add_string b "\\v" | 12 -> Buffer.add_string b "\\f"
+      | 13 -> Buffer.add_string b "\\r"
+      | 34 -> Buffer.add_string b "\\\""
+      | 92 -> Buffer.add_string b "\\\\"
+      | _ when c < 32 || c >= 127 -> Buffer.add_string b (Printf.sprintf "\\x%02x" c)
+      | _ -> Buffer.add_char b (Char.chr c)) l;
+  Buffer.add_char b '"'; Buffer.contents b
+
+let duration_s (n : n) : string =
+  let s = int_of_n n in
+  if s = 0 then "0s"
+  else if s < 60 then Printf.sprintf "%ds" s
+  else if s < 3600 then Printf.sprintf "%dm%ds" (s / 60) (s mod 60)
+  else Printf.sprintf "%dh%dm%ds" (s / 3600) (s mod 3600 / 60) (s mod 60)
+
+let tok_s = function
+  | TLit s | TStr s -> raw s
+  | TNum n -> string_of_n n
+  | TInt z -> string_of_z z
+  | TBool b -> if b then "true" else "false"
+  | TBytes s -> "[" ^ String.concat " " (List.map (fun x -> string_of_int (int_of_byte x)) s) ^ "]"
+  | TQuoted s -> go_quote s
+  | TDuration n -> duration_s n
+  | TNums l -> "[" ^ String.concat " " (List.map string_of_n l) ^ "]"
+
+let hex_of_string (s : string) : string =
+  if s = "" then "-" else begin
+    let b = Buffer.create (2 * String.length s) in
+    String.iter (fun c -> let i = Char.code c in
+                  Buffer.add_char b hexdig.[i lsr 4]; Buffer.add_char b hexdig.[i land 15]) s;
+    Buffer.contents b
+  end
+
+let render_s k p =
+  let str = match string_toks k p with
+    | None -> "PANIC"
+    | Some ts -> hex_of_string (String.concat "" (List.map tok_s ts)) in
+  "str=" ^ str ^ " dump=" ^ hex_of_string (String.concat "" (List.map tok_s (dump_toks k p)))
+
 (* ---------- ops ---------- *)
 let outcome_s f w = function
   | Ok v -> "OK " ^ f v ^ " w=" ^ string_of_int (w v)
@@ -289,6 +344,22 @@ let run_case (line : string) : string =
         Buffer.add_string b (snap_s k p'); Buffer.add_string b " | "; p') (ctor k) calls in
     Buffer.add_string b (enc_s k p); Buffer.add_string b " "; Buffer.add_string b (wf_s k p);
     Buffer.contents b
+  | "S" :: k :: calls ->
+    let k = kind_of_string k in
+    let p = List.fold_left (fun p t -> step (parse_call t) p) (ctor k) calls in
+    render_s k p
+  | ["SR"; h] ->
+    (match read_packet (one (bytes_of_hex h)) with
+     | RP r -> (match r.r_pkt with
+         | Some (k, p) -> "P" ^ kind_s k ^ " " ^ render_s k p
+         | None -> "ERR")
+     | _ -> "PANIC")
+  | ["SZ"; k] -> let k = kind_of_string k in render_s k zero_pkt
+  | ["FB"; n] -> hex_of_bytes (first_byte_string (n_of_string n))
+  | ["CF"; n] -> hex_of_bytes (connect_flags_string (n_of_string n))
+  | ["CAF"; n] -> hex_of_bytes (connack_flags_string (n_of_string n))
+  | ["FO"; n] -> hex_of_bytes (filter_string ([], n_of_string n))
+  | ["RC"; n] -> hex_of_string (String.concat "" (List.map tok_s (reason_toks (n_of_string n))))
   | "W" :: k :: ws :: calls ->
     let k = kind_of_string k in
     let p = List.fold_left (fun p t -> step (parse_call t) p) (ctor k) calls in
